@@ -44,7 +44,7 @@ def units():
              'defs': base_defs(flavour, base_t, sz), 'tier': tier}
         u.update(kw)
         us.append(u)
-    for elem in ('ElemNR', 'ElemTR'):
+    for elem in ('ElemNR', 'ElemTR', 'ElemTC'):
         et = ELEM_TAG[elem]
         for sz in ('u8',):
             b = svb(elem, sz)
@@ -62,7 +62,7 @@ def units():
                 add('svb.%s.%s.%s' % (m.split('__')[0] + ('_c' if m.endswith('_c') else ''), et, sz), b + '__' + m, props, 1, b, sz, elem,
                     throws_reachable=False)
     # ---- the two other bases
-    for elem in ('ElemNR', 'ElemTR'):
+    for elem in ('ElemNR', 'ElemTR', 'ElemTC'):
         et = ELEM_TAG[elem]
         for sz in ('u8',):
             for fl, fnum, b in (('std', 2, 'StdVectorBase_E_A_%s' % sz), ('static', 3, 'StaticVectorBase_E_%s' % sz)):
@@ -96,7 +96,7 @@ def units():
     L2D = [('emplace_back__rE', ALLP + ['C10'], 1), ('emplace_back__rrE', ALLP, 2), ('emplace_back__rri32', ALLP, 3),
            ('emplace__pE_rE', ALLP + ['C10'], 1), ('emplace__pE_rrE', ALLP, 2), ('emplace__pE_rri32', ALLP, 3),
            ('reserve__%(S)s', ['C01', 'C05', 'C06', 'C07', 'C08', 'C09', 'C18'], 0)]
-    for elem in ('ElemNR', 'ElemTR'):
+    for elem in ('ElemNR', 'ElemTR', 'ElemTC'):
         et = ELEM_TAG[elem]
         for sz in ('u8',):
             for fl, (fnum, bpat, vpat) in FLAV.items():
@@ -106,12 +106,14 @@ def units():
                     add('op.%s.%s.%s.%s' % (m2.split('__')[0] + '_' + m2.split('__')[1][:12], fl, et, sz), (vpat % sz) + '__' + m2, pp, fnum, bpat % sz, sz, elem,
                         throws_reachable=not m2.startswith(('op_eq', 'op_lt', 'pop_back_val', 'op_index', 'data', 'end', 'front', 'back', 'cend')))
                 for m, props, ek in L2D:
+                    if ek == 3 and elem == 'ElemTC':
+                        continue        # ElemTC is an aggregate: no constructor from int
                     pp = [p for p in props if not (fl == 'static' and p in ('C06', 'C18')) and not (fl == 'std' and p == 'C05')]
                     m2 = m % {'S': sz}
                     add('op.%s.%s.%s.%s' % (m2.split('__')[0] + '_' + m2.split('__')[1], fl, et, sz), (DPAT[fl] % sz) + '__' + m2, pp, fnum, bpat % sz, sz, elem)
                     us[-1]['defs']['EMPLACE_KIND'] = str(ek)
     # ---- amc::Vector wrappers, callee replaced by contract (modular)
-    for elem in ('ElemNR', 'ElemTR'):
+    for elem in ('ElemNR', 'ElemTR', 'ElemTC'):
         et = ELEM_TAG[elem]
         for sz in ('u8',):
             b = svb(elem, sz)
@@ -124,7 +126,7 @@ def units():
     # ---- amc::Vector constructors, destructor, copy assignment per flavour (callees inlined; the base-class pieces have their own units)
     VECS = {'small': (1, 'SmallVectorBase_E_A_%s', 'Vector_E_A_%s_Dyn_4', '4', 'A'), 'std': (2, 'StdVectorBase_E_A_%s', 'Vector_E_A_%s_Dyn_0', '0', 'A'),
             'static': (3, 'StaticVectorBase_E_%s', 'Vector_E_X_%s_Exc_4', '4', 'X')}
-    for elem in ('ElemNR', 'ElemTR'):
+    for elem in ('ElemNR', 'ElemTR', 'ElemTC'):
         et = ELEM_TAG[elem]
         for sz in ('u8',):
             for fl, (fnum, bpat, vpat, vn, al) in VECS.items():
@@ -138,7 +140,9 @@ def units():
                                       ('dtor__v', ['C02', 'C06'], False), ('op_assign__r' + V, CP, True)]:
                     pp = [p for p in props if not (fl == 'static' and p in ('C06', 'C18')) and not (fl == 'std' and p == 'C05')]
                     short = m.replace('__', '_').replace(V, 'V')
-                    add('vec.%s.%s.%s.%s' % (short, fl, et, sz), V + '__' + m, pp, fnum, bpat % sz, sz, elem, throws_reachable=thr)
+                    # a fixed-capacity vector of trivially copyable elements cannot fail when it copies a vector of its own type
+                    thr2 = thr and not (fl == 'static' and elem == 'ElemTC' and ('r' + V) in m)
+                    add('vec.%s.%s.%s.%s' % (short, fl, et, sz), V + '__' + m, pp, fnum, bpat % sz, sz, elem, throws_reachable=thr2)
                     us[-1]['defs']['VEC_N'] = vn
                 for kind, opn in (('copy', 'op_assign__r' + V), ('move', 'op_assign__rr' + V)):
                     add('vec.self_assign_%s.%s.%s.%s' % (kind, fl, et, sz), 'self_assign', [p for p in ['C01', 'C02', 'C05', 'C06', 'C07'] if not (fl == 'static' and p == 'C06') and not (fl == 'std' and p == 'C05')],
@@ -182,8 +186,10 @@ def units():
                          ('insert__rE', ['C03', 'C02', 'C09', 'C12', 'C19']), ('insert__rrE', ['C03', 'C02', 'C09', 'C12', 'C19']),
                          ('insert__pE_rE', ['C03', 'C02', 'C09', 'C12', 'C19']), ('insert__pE_rrE', ['C03', 'C02', 'C09', 'C12', 'C19']),
                          ('erase__rE', ['C03', 'C02', 'C09', 'C19']), ('size__v_c', ['C03', 'C20']), ('empty__v_c', ['C03', 'C20']),
-                         ('begin__v_c', ['C03', 'C20']), ('end__v_c', ['C03', 'C20']), ('clear__v', ['C03', 'C02']), ('extract__rE', ['C03', 'C02', 'C19'])]:
-            add('fs.%s.NR.%s' % (m.replace('__', '_'), fsz), FS + '__' + m, props, 2, 'StdVectorBase_E_A_' + fsz, fsz, 'ElemNR', tier=tier,
+                         ('begin__v_c', ['C03', 'C20']), ('end__v_c', ['C03', 'C20']), ('clear__v', ['C03', 'C02']), ('extract__rE', ['C03', 'C02', 'C19']),
+                         ('erase__pE', ['C03', 'C02', 'C09', 'C19']), ('erase__pE_pE', ['C03', 'C02', 'C09', 'C19']), ('extract__pE', ['C03', 'C02', 'C19']),
+                         ('insert__rr%s__node_type' % FS, ['C03', 'C02', 'C09', 'C12', 'C19']), ('insert__pE_rr%s__node_type' % FS, ['C03', 'C02', 'C09', 'C12', 'C19'])]:
+            add('fs.%s.NR.%s' % (m.replace('__', '_').replace(FS, 'FS'), fsz), FS + '__' + m, props, 2, 'StdVectorBase_E_A_' + fsz, fsz, 'ElemNR', tier=tier,
                 throws_reachable=m.startswith('insert'), timeout=(600 if fsz == 'u8' else 2400))
             us[-1]['cfg'] = 'sets17'
             us[-1]['defs']['WITH_SETS'] = '1'
